@@ -273,6 +273,43 @@ def deferredResponse (bodyText : List Char) : Framed :=
 /-- what a client reads as the body: exactly Content-Length bytes -/
 def clientBody (f : Framed) : Bytes := f.wire.take f.contentLength.toNat
 
+/-! ## how the request reaches `continue_request`: the body collector and the header buffer
+
+  The socket delivers the request in arbitrary pieces.  While a request is being received the channel
+  passes every piece of the body to `collector.collect_incoming_data`, which keeps the generated
+  `collData_c0_0 piece`; when Content-Length bytes have arrived `collector.found_terminator` hands
+  `continue_request` the generated `collFound_c1_0 kept`.  An exception anywhere escapes
+  `handle_read`: asyncore closes the channel and the client gets no answer at all — so the answer
+  can only be independent of the segmentation if this composition is. -/
+
+/-- `collector.collect_incoming_data`, once per piece, exceptions sticky -/
+def collectPieces : List Bytes → List PyStr → Except String (List PyStr)
+  | [], kept => .ok kept
+  | p :: rest, kept =>
+    match collData_c0_0 (.bytes p) with
+    | .ok x => collectPieces rest (kept ++ [x])
+    | .error e => .error e
+
+/-- the text handed to `continue_request` for a body that arrived as `pieces` -/
+def requestBody (pieces : List Bytes) : Except String PyStr :=
+  match collectPieces pieces [] with
+  | .ok kept => collFound_c1_0 kept
+  | .error e => .error e
+
+/-- `http_channel.collect_incoming_data` while no request is current: `self.in_buffer = <chanData_a0>` -/
+def bufferPieces : List Bytes → PyStr → Except String PyStr
+  | [], buf => .ok buf
+  | p :: rest, buf =>
+    match chanData_a0 buf (.bytes p) with
+    | .ok b => bufferPieces rest b
+    | .error e => .error e
+
+/-- the header text `deferring_http_channel.found_terminator` cracks, for a header that arrived as `pieces` -/
+def requestHeader (pieces : List Bytes) : Except String PyStr :=
+  match bufferPieces pieces (.bytes []) with
+  | .ok buf => chanFound_a0 buf
+  | .error e => .error e
+
 /-! ## line protocol
   case rpc <entry>*        entry = <hexns>  |  <hexns>:<hexattr>:o  |  <hexns>:<hexattr>:m<min>,<max>,<beh>
                            beh   = v<id> | f<code> | x | t | d<k>,<final>      final = v<id> | f<code> | x
@@ -280,6 +317,9 @@ def clientBody (f : Framed) : Bytes := f.wire.take f.contentLength.toNat
         multi <hexname|*>:<nargs>,...  | -  → results=<v..|f..;...|-> ticks=<n> ran=<labels|->
         gate <name> <mood> <nLeaf>          → fault <c> changed=<0|1> | passes | other
         frame <i|d> <code points,..|->      → cl=<Content-Length> wire=<hex of the body bytes>
+        collect <hex piece|->,...           → text <code points,..|-> | bytes <hex> | raises <exception>    (the body collector)
+        header <hex piece|->,...            → the same for the header buffer
+        decode <hex>                        → text <code points,..|-> | raises UnicodeDecodeError
 -/
 abbrev Log := List String
 
@@ -385,6 +425,13 @@ def parseMCall (t : String) : Option (MCall Int) :=
     | none => none
   | _ => none
 
+def showPyRes : Except String PyStr → String
+  | .ok (.text t) => "text " ++ (if t.isEmpty then "-" else ",".intercalate (t.map fun c => toString c.toNat))
+  | .ok (.bytes b) => "bytes " ++ hexOfBytes b
+  | .error e => "raises " ++ e
+
+def parsePieces (t : String) : Option (List Bytes) := (t.splitOn ",").mapM bytesOfHex
+
 def countTicks {σ ν : Type} (tbl : Table (Method σ ν)) : Nat → Nat → MC σ ν → σ → Nat
   | 0, k, _, _ => k
   | f+1, k, m, s =>
@@ -420,6 +467,18 @@ def rpcOps (tbl : Table (Method Log Int)) (s : Log) : List String → List Strin
         let f := if kind = "d" then deferredResponse t else immediateResponse t
         s!"cl={f.contentLength} wire={hexOfBytes f.wire}" :: rpcOps tbl s rest
       | none => "bad-op" :: rpcOps tbl s rest
+    | ["collect", ps] =>
+      (match parsePieces ps with
+       | some pieces => showPyRes (requestBody pieces)
+       | none => "bad-op") :: rpcOps tbl s rest
+    | ["header", ps] =>
+      (match parsePieces ps with
+       | some pieces => showPyRes (requestHeader pieces)
+       | none => "bad-op") :: rpcOps tbl s rest
+    | ["decode", h] =>
+      (match bytesOfHex h with
+       | some b => showPyRes (asString (.bytes b))
+       | none => "bad-op") :: rpcOps tbl s rest
     | ["gate", name, mood, nl] =>
       match mood.toInt?, nl.toNat?, gateTable.lookup name with
       | some mood, some nl, some g =>
